@@ -27,10 +27,13 @@ abbrev Name := List Nat
 /-- bytes of an ASCII literal (used for constants of the model; exact for ASCII only) -/
 def asc (s : String) : Name := s.toList.map Char.toNat
 
+/-- decimal digits, most significant first (`fuel ≥ n` is enough) -/
+def itoaAux : Nat → Nat → Name
+  | 0, n => [48 + n % 10]
+  | fuel + 1, n => if n < 10 then [48 + n] else itoaAux fuel (n / 10) ++ [48 + n % 10]
+
 /-- `strconv.Itoa` on naturals -/
-def itoa (n : Nat) : Name :=
-  if n < 10 then [48 + n] else itoa (n / 10) ++ [48 + n % 10]
-decreasing_by omega
+def itoa (n : Nat) : Name := itoaAux n n
 
 /-- the byte `_` -/
 def underscore : Nat := 95
